@@ -164,6 +164,16 @@ theorem shared_flag_reset_recomputes_all :
     ∀ e ∈ TTGen.C11_Wiring.sharedFlags, e.2.2 = true := by
   decide
 
+/-- **fire_reaches_every_listener.**  Every class's `fire_parameter_changed` / `fire_model_changed` is, in the source,
+the plain loop over the object's OWN listener list — not decorated — at most behind a re-entrancy guard kept in an attribute
+of the object itself.  This is what the machine's `fireL` assumes: a notification reaches every listener of the firing
+object; the only calls that may be swallowed are echoes back into an object that is already firing (listener cycles).  A
+guard shared between objects (a decorator's closure, a class variable) would drop the notification of one object while
+another one is notifying. -/
+theorem fire_reaches_every_listener :
+    ∀ e ∈ TTGen.C11_Wiring.fireLoops, e.2 = true := by
+  decide
+
 /-- **failed_eval_keeps_inv.**  A getter call on cell `c` that fails in its own computation has evaluated (some of)
 the cells it reads and then raised, leaving its own cache and flag as they were: the cache-coherence invariant still
 holds and no parameter moved — so by `wellwired_no_stale_from` every later call returns the fresh value (or fails
